@@ -818,6 +818,9 @@ def run_opassign(ctx, cases, runner, fresh=False):
         ns = len(c["setup"])
         # oracle: setup statements must succeed; the extra oracle statements (t_ := f(..); a[i] = t_) may fail = "fail"
         c["oracle_val"] = obs(o, ns, len(c["oracle_setup"]) - ns + 1)
+        if c["label"].split(":", 1)[-1] in UNORDERED:      # result in HashMap iteration order: compare as a multiset
+            c["impl"] = unorder(c["impl"]) if c["impl"] else c["impl"]
+            c["oracle_val"] = unorder(c["oracle_val"]) if c["oracle_val"] else c["oracle_val"]
         c["model_nf"] = next(mres) if (c["model"] and runner) else None
         c["ref_src"] = None
         if c["model_nf"] and c["model_nf"].startswith("ok "):
@@ -832,6 +835,8 @@ def run_opassign(ctx, cases, runner, fresh=False):
         c["ref_val"] = None
     for c, r in zip(refs, rres):
         c["ref_val"] = obs(r, len(c["setup"]), 1)
+        if c["label"].split(":", 1)[-1] in UNORDERED and c["ref_val"]:
+            c["ref_val"] = unorder(c["ref_val"])
     return cases
 
 
